@@ -156,6 +156,7 @@ Definition linkingN (s : st) (n : nat) : Prop :=
 
 (* queues visited by the first k iterations of a trypop that began at counter c *)
 Definition vis (c npr k : nat) : list nat := map (fun j => (c + j) mod npr) (seq 0 k).
+Global Arguments vis : simpl never.
 
 Definition cnt_ok (x : ist) (T : tst) (done : nat) : Prop :=
   counter (base x) = c0 x + it T + done /\ qi T = (c0 x + it T) mod np (base x) /\
@@ -956,7 +957,7 @@ Proof.
       * apply (g_qlog x G).
       * left; auto.
       * destruct (LT2 ltac:(lia)) as [C1 C2].
-        unfold local_ok, cnt_ok. cbn. rewrite Nat.add_0_r. repeat split; auto. rewrite C1. reflexivity.
+        unfold local_ok, cnt_ok. cbn. rewrite Nat.add_0_r. repeat split; auto; rewrite C1; reflexivity.
   - (* CRead2 *)
     match goal with |- GInv {| base := set_thr _ _ ?X |} =>
       apply (frame_step x t X (counter (base x)) (nxt (base x)) (dat (base x)) (nret x) (c0 x) (visits x) (qlog x) G);
@@ -1132,11 +1133,12 @@ Proof.
     + intros q H. right. apply next_op_uses. exact H.
     + apply next_op_qi; auto.
     + intros q Hq. unfold ret_ok. subst t. rewrite upd_same. rewrite next_op_popping. cbn [andb].
-      specialize (Rt q Hq). destruct (Nat.eqb_spec (qi T) q) as [<-|Nq].
-      * rewrite upd_same. lia.
-      * rewrite upd_other by auto. exact Rt.
-    + intros q Hq. specialize (Rt q Hq). destruct (Nat.eqb_spec (qi T) q) as [<-|Nq].
-      * rewrite qtag_snoc_same, upd_same, seq_snoc, map_app. cbn [map]. rewrite <- (g_qlog x G) by auto.
+      specialize (Rt q Hq). destruct (Nat.eq_dec q (qi T)) as [E|Nq].
+      * rewrite E in *. rewrite Nat.eqb_refl in Rt. rewrite upd_same. lia.
+      * rewrite (proj2 (Nat.eqb_neq (qi T) q)) in Rt by auto. rewrite upd_other by auto. exact Rt.
+    + intros q Hq. specialize (Rt q Hq). destruct (Nat.eq_dec q (qi T)) as [E|Nq].
+      * rewrite E in *. rewrite Nat.eqb_refl in Rt.
+        rewrite qtag_snoc_same, upd_same, seq_snoc, map_app. cbn [map]. rewrite <- (g_qlog x G) by auto.
         f_equal. rewrite LT. f_equal. f_equal. lia.
       * rewrite qtag_snoc_other, upd_other by auto. apply (g_qlog x G); auto.
     + left; auto.
@@ -1150,4 +1152,268 @@ Proof.
   intros W. induction 1 as [|x t R IH].
   - apply init_inv; exact W.
   - apply linv_step; exact IH.
+Qed.
+
+(* ------------------------------------------------------------------ *)
+(* the statements used by Properties_C15.v *)
+
+Lemma nret_le x q : GInv x -> q < np (base x) -> nret x q <= lo x q <= hi x q.
+Proof.
+  intros G Hq. pose proof (g_ret x G q Hq) as R. pose proof (g_ord x G q Hq). unfold ret_ok in R.
+  destruct (_ && _); lia.
+Qed.
+
+Lemma qtag_length x q : GInv x -> q < np (base x) -> length (qtag q (qlog x)) = nret x q.
+Proof. intros G Hq. rewrite (g_qlog x G q Hq), map_length, seq_length. reflexivity. Qed.
+
+(* data of the nodes queued behind the stub of queue q, oldest first *)
+Definition content (x : ist) (q : nat) : list nat :=
+  map (fun i => dat (base x) (nodeat x q i)) (seq (S (lo x q)) (hi x q - lo x q)).
+
+Lemma fifo_of_inv x q : GInv x -> q < np (base x) ->
+  exists pend, ptag q (plog x) = qtag q (qlog x) ++ pend ++ content x q /\
+               length pend = if popping (pc (thr (base x) 0)) && (qi (thr (base x) 0) =? q) then 1 else 0.
+Proof.
+  intros G Hq. pose proof (nret_le x q G Hq) as L. pose proof (g_ret x G q Hq) as R. unfold ret_ok in R.
+  exists (map (valat x q) (seq (S (nret x q)) (lo x q - nret x q))). split.
+  - rewrite (g_plog x G q Hq), (g_qlog x G q Hq). unfold content.
+    replace (map (fun i => dat (base x) (nodeat x q i)) (seq (S (lo x q)) (hi x q - lo x q)))
+      with (map (valat x q) (seq (S (lo x q)) (hi x q - lo x q))).
+    + rewrite <- !map_app. f_equal.
+      replace (hi x q) with (nret x q + ((lo x q - nret x q) + (hi x q - lo x q))) at 1 by lia.
+      rewrite !seq_app. f_equal. f_equal. f_equal. lia.
+    + apply map_ext_in. intros i Hi. apply in_seq in Hi. symmetry. apply (g_dat x G); auto. lia.
+  - rewrite map_length, seq_length. destruct (_ && _); lia.
+Qed.
+
+Lemma prefix_of_inv x q : GInv x -> q < np (base x) -> exists rest, ptag q (plog x) = qtag q (qlog x) ++ rest.
+Proof. intros G Hq. destruct (fifo_of_inv x q G Hq) as [p [E _]]. eexists. exact E. Qed.
+
+Lemma kth_of_inv x q k v : GInv x -> q < np (base x) ->
+  nth_error (qtag q (qlog x)) k = Some v -> nth_error (ptag q (plog x)) k = Some v.
+Proof.
+  intros G Hq H. destruct (prefix_of_inv x q G Hq) as [r E]. rewrite E.
+  rewrite nth_error_app1; auto. apply nth_error_Some. congruence.
+Qed.
+
+Lemma qtag_in q v l : In (q, v) l -> In v (qtag q l).
+Proof.
+  intros H. unfold qtag. apply in_map_iff. exists (q, v). split; auto.
+  apply filter_In. split; auto. cbn. apply Nat.eqb_refl.
+Qed.
+
+Lemma ptag_in q v l : In v (ptag q l) -> exists t, In (t, q, v) l.
+Proof.
+  unfold ptag. intros H. apply in_map_iff in H. destruct H as [[[t q'] w] [E H]]. cbn in E. subst w.
+  apply filter_In in H. destruct H as [H1 H2]. cbn in H2. apply Nat.eqb_eq in H2. subst q'. exists t; exact H1.
+Qed.
+
+Lemma pushed_only_of_inv x q v : GInv x -> q < np (base x) ->
+  In (q, v) (qlog x) -> exists t, In (t, q, v) (plog x).
+Proof.
+  intros G Hq H. destruct (prefix_of_inv x q G Hq) as [r E].
+  apply ptag_in. rewrite E. apply in_or_app. left. apply qtag_in. exact H.
+Qed.
+
+(* a visit of trypop about to read a NULL next pointer in queue qi *)
+Lemma empty_justified_of_inv x t : GInv x ->
+  pc (thr (base x) t) = QNext -> nxt (base x) (hd (thr (base x) t)) = 0 ->
+  let q := qi (thr (base x) t) in
+  ptag q (plog x) = qtag q (qlog x) \/
+  exists u, pc (thr (base x) u) = PLink /\ qi (thr (base x) u) = q /\
+            prev (thr (base x) u) = heads (base x) q /\
+            nth_error (ptag q (plog x)) (length (qtag q (qlog x))) = Some (arg (thr (base x) u)).
+Proof.
+  intros G Hpc Hn q.
+  assert (Qn : q < np (base x)) by apply (g_qi x G).
+  assert (LT := g_loc x G t). unfold local_ok in LT. rewrite Hpc in LT. fold q in LT. destruct LT as [_ LT].
+  assert (T0 : t = 0).
+  { destruct (Nat.eq_dec t 0) as [|Ne]; auto. destruct (g_cons x G t Ne) as [P _]. rewrite Hpc in P. destruct P. }
+  assert (R := g_ret x G q Qn). unfold ret_ok in R. rewrite <- T0, Hpc in R. cbn in R.
+  pose proof (g_ord x G q Qn) as O.
+  destruct (Nat.eq_dec (lo x q) (hi x q)) as [E|Ne].
+  - left. rewrite (g_plog x G q Qn), (g_qlog x G q Qn). congruence.
+  - right. rewrite LT in Hn. destruct (g_link x G q (lo x q) Qn ltac:(lia)) as [[[u [Hu Pu]] _]|[_ B]].
+    + exists u. split; [exact Hu|].
+      assert (Lu := g_loc x G u). unfold local_ok in Lu. rewrite Hu in Lu.
+      destruct Lu as [i (A & B & C & D)]. rewrite Pu in B.
+      destruct (g_inj x G q (qi (thr (base x) u)) (lo x q) i Qn (g_qi x G u) ltac:(lia) ltac:(lia) B) as [E1 E2].
+      split; [symmetry; exact E1|]. split; [rewrite (g_head x G q Qn); exact Pu|].
+      rewrite (qtag_length x q G Qn), (g_plog x G q Qn), R, D, <- E1, <- E2.
+      rewrite nth_error_map. rewrite nth_error_nth' with (d := 0) by (rewrite seq_length; lia).
+      rewrite seq_nth by lia. reflexivity.
+    + exfalso. apply (g_nz x G q (S (lo x q))); auto; [lia|congruence].
+Qed.
+
+Lemma vis_all c npr q : 0 < npr -> q < npr -> In q (vis c npr npr).
+Proof.
+  intros Hn Hq. unfold vis. apply in_map_iff.
+  pose proof (Nat.mod_upper_bound c npr ltac:(lia)) as Hr.
+  destruct (le_lt_dec (c mod npr) q) as [L|L].
+  - exists (q - c mod npr). split.
+    + rewrite <- Nat.add_mod_idemp_l by lia.
+      replace (c mod npr + (q - c mod npr)) with q by lia. apply Nat.mod_small. exact Hq.
+    + apply in_seq. lia.
+  - exists (q + npr - c mod npr). split.
+    + rewrite <- Nat.add_mod_idemp_l by lia.
+      replace (c mod npr + (q + npr - c mod npr)) with (q + 1 * npr) by lia.
+      rewrite Nat.mod_add by lia. apply Nat.mod_small. exact Hq.
+    + apply in_seq. lia.
+Qed.
+
+(* trypop about to return NULL: it has read a NULL next pointer in every queue
+   during this call *)
+Lemma null_visits_all_of_inv x t : GInv x ->
+  pc (thr (base x) t) = QNext -> nxt (base x) (hd (thr (base x) t)) = 0 ->
+  ~ S (it (thr (base x) t)) < np (base x) ->
+  forall q, q < np (base x) -> In q (visits x ++ [qi (thr (base x) t)]).
+Proof.
+  intros G Hpc Hn Hlast q Hq.
+  assert (LT := g_loc x G t). unfold local_ok, cnt_ok in LT. rewrite Hpc in LT.
+  destruct LT as [(C1 & C2 & C3 & C4) _].
+  rewrite C3, C2, <- vis_snoc.
+  replace (S (it (thr (base x) t))) with (np (base x)) by lia.
+  apply vis_all; auto. apply (g_np x G).
+Qed.
+
+(* thread T holds node n privately: it is being returned by trypop *)
+Definition holds (T : tst) (n : nat) : Prop := popping (pc T) = true /\ hd T = n.
+
+Lemma holds_own T n : holds T n -> In n (own_list T).
+Proof. intros [P E]. subst n. apply in_own_popping; exact P. Qed.
+
+Lemma reach_in_window x q k : GInv x -> q < np (base x) ->
+  Nat.iter k (nxt (base x)) (heads (base x) q) = 0 \/
+  exists i, lo x q <= i <= hi x q /\ nodeat x q i = Nat.iter k (nxt (base x)) (heads (base x) q).
+Proof.
+  intros G Hq. induction k as [|k IH]; simpl Nat.iter.
+  - right. exists (lo x q). pose proof (g_ord x G q Hq). split; [lia|]. symmetry. apply (g_head x G); auto.
+  - destruct IH as [E|[i [Hi E]]].
+    + left. rewrite E. apply (g_nxt0 x G).
+    + rewrite <- E. destruct (Nat.eq_dec i (hi x q)) as [->|Ne].
+      * left. apply (g_last x G); auto.
+      * destruct (g_link x G q i Hq ltac:(lia)) as [[_ B]|[_ B]]; [left; exact B|].
+        right. exists (S i). split; [lia|]. symmetry. exact B.
+Qed.
+
+Lemma ownership_of_inv x t n : GInv x -> holds (thr (base x) t) n ->
+  n <> 0 /\
+  (forall q k, q < np (base x) -> Nat.iter k (nxt (base x)) (heads (base x) q) <> n) /\
+  (forall q, q < np (base x) -> tails (base x) q <> n) /\
+  (forall u, pc (thr (base x) u) = PLink -> prev (thr (base x) u) <> n /\ node (thr (base x) u) <> n) /\
+  (forall u, u <> t -> ~ In n (own_list (thr (base x) u))).
+Proof.
+  intros G H. apply holds_own in H. destruct (g_own_nq x G t n H) as [Nz Nw].
+  split; [exact Nz|]. split; [|split; [|split]].
+  - intros q k Hq E. destruct (reach_in_window x q k G Hq) as [Z|[i [Hi Ei]]]; [congruence|].
+    apply (Nw q i Hq Hi). congruence.
+  - intros q Hq. rewrite (g_tail x G q Hq). pose proof (g_ord x G q Hq). apply Nw; auto; lia.
+  - intros u Hu. assert (Lu := g_loc x G u). unfold local_ok in Lu. rewrite Hu in Lu.
+    destruct Lu as [i (A & B & C & D)]. rewrite B, C. pose proof (g_qi x G u). split; apply Nw; auto; lia.
+  - intros u Hu Hin. apply Hu. apply (g_own_dj x G u t n); auto.
+Qed.
+
+Lemma reachable_inv npr progs s :
+  wf npr progs -> reachable M (init npr progs) s -> exists x, GInv x /\ base x = s.
+Proof.
+  intros W R. destruct (reachable_ireach npr progs s R) as [x [Rx E]].
+  exists x. split; [apply (ireach_inv npr progs); auto|exact E].
+Qed.
+
+Lemma ownership_reachable npr progs s t n :
+  wf npr progs -> reachable M (init npr progs) s -> holds (thr s t) n ->
+  n <> 0 /\
+  (forall q k, q < np s -> Nat.iter k (nxt s) (heads s q) <> n) /\
+  (forall q, q < np s -> tails s q <> n) /\
+  (forall u, pc (thr s u) = PLink -> prev (thr s u) <> n /\ node (thr s u) <> n) /\
+  (forall u, u <> t -> ~ In n (own_list (thr s u))).
+Proof.
+  intros W R H. destruct (reachable_inv npr progs s W R) as [x [G E]]. subst s.
+  apply (ownership_of_inv x t n G H).
+Qed.
+
+Lemma np_const npr progs x : ireach npr progs x -> np (base x) = npr.
+Proof.
+  induction 1 as [|x t R IH]; [reflexivity|]. rewrite lstep_erase. rewrite <- IH.
+  unfold step. destruct (pc (thr (base x) t)); try reflexivity.
+  destruct (nxt (base x) (hd (thr (base x) t))); [destruct (_ <? _)|]; reflexivity.
+Qed.
+
+(* ------------------------------------------------------------------ *)
+(* per-producer program order: the values thread t has stored into queue q so
+   far, followed by the values t has still to push to q, are t's program *)
+Fixpoint pushvalsq (npr q : nat) (p : list op) : list nat :=
+  match p with
+  | [] => []
+  | OPush q' _ v :: r => if q' mod npr =? q then v :: pushvalsq npr q r else pushvalsq npr q r
+  | _ :: r => pushvalsq npr q r
+  end.
+
+Definition pendq (npr q : nat) (T : tst) : list nat :=
+  (if pushing (pc T) && (qi T =? q) then [arg T] else []) ++ pushvalsq npr q (prog T).
+
+Definition tqvals (t q : nat) (l : list (nat * nat * nat)) : list nat :=
+  map snd (filter (fun e => Nat.eqb (fst (fst e)) t && Nat.eqb (snd (fst e)) q) l).
+
+Definition PInv (npr : nat) (progs : list (list op)) (x : ist) : Prop :=
+  forall t q, tqvals t q (plog x) ++ pendq npr q (thr (base x) t) = pushvalsq npr q (nth t progs []).
+
+Lemma pend_next_op npr q T : pushing (pc T) = false -> pendq npr q (next_op npr T) = pendq npr q T.
+Proof.
+  unfold pendq, next_op. intros E. rewrite E.
+  destruct (prog T) as [|[q' n v|] r]; cbn [pc prog qi arg pushing andb pushvalsq app]; try reflexivity.
+  destruct (q' mod npr =? q); reflexivity.
+Qed.
+
+Lemma step_thr_other s u t : t <> u -> thr (fst (step s u)) t = thr s t.
+Proof.
+  intros Ne. unfold step. destruct (pc (thr s u)); cbn [fst thr set_thr]; try reflexivity;
+    try (apply upd_other; exact Ne).
+  destruct (nxt s (hd (thr s u))); [destruct (_ <? _)|]; cbn [fst thr set_thr]; apply upd_other; exact Ne.
+Qed.
+
+Lemma lstep_plog x u :
+  plog (lstep x u) = match pc (thr (base x) u) with
+                     | PStoreTail => plog x ++ [(u, qi (thr (base x) u), arg (thr (base x) u))]
+                     | _ => plog x
+                     end.
+Proof.
+  unfold lstep. destruct (pc (thr (base x) u)); try reflexivity.
+  - destruct (it (thr (base x) u)); reflexivity.
+  - destruct (nxt (base x) (hd (thr (base x) u))); reflexivity.
+Qed.
+
+Lemma tqvals_snoc t q l t' q' v :
+  tqvals t q (l ++ [(t', q', v)]) = tqvals t q l ++ (if (t' =? t) && (q' =? q) then [v] else []).
+Proof.
+  unfold tqvals. rewrite filter_app, map_app. cbn. destruct ((t' =? t) && (q' =? q)); reflexivity.
+Qed.
+
+Lemma pinv_step progs x u : PInv (np (base x)) progs x -> PInv (np (base x)) progs (lstep x u).
+Proof.
+  intros P t q. specialize (P t q). rewrite lstep_erase, lstep_plog.
+  destruct (Nat.eq_dec t u) as [<-|Ne].
+  - unfold step. remember (thr (base x) t) as T eqn:HT.
+    destruct (pc T) eqn:Hpc; cbn [fst thr set_thr]; rewrite ?upd_same; try (rewrite <- HT; exact P);
+      try (rewrite <- P; unfold pendq; cbn; rewrite Hpc; reflexivity);
+      try (rewrite pend_next_op by (rewrite Hpc; reflexivity); exact P).
+    + rewrite <- P. rewrite tqvals_snoc, Nat.eqb_refl. unfold pendq. cbn. rewrite Hpc. cbn.
+      rewrite <- app_assoc. reflexivity.
+    + destruct (nxt (base x) (hd T)); [destruct (_ <? _)|]; cbn [fst thr set_thr]; rewrite upd_same.
+      * rewrite <- P. unfold pendq. cbn. rewrite Hpc. reflexivity.
+      * rewrite pend_next_op by (rewrite Hpc; reflexivity). exact P.
+      * rewrite <- P. unfold pendq. cbn. rewrite Hpc. reflexivity.
+  - rewrite step_thr_other by assumption.
+    destruct (pc (thr (base x) u)); auto. rewrite tqvals_snoc.
+    destruct (Nat.eqb_spec u t); [congruence|]. cbn. rewrite app_nil_r. exact P.
+Qed.
+
+Theorem ireach_pinv npr progs x : ireach npr progs x -> PInv npr progs x.
+Proof.
+  induction 1 as [|x t R IH].
+  - intros t q. cbn. unfold idle_thread. rewrite pend_next_op; reflexivity.
+  - assert (E := np_const npr progs x R). rewrite <- E in *.
+    assert (E' : np (base (lstep x t)) = np (base x)).
+    { rewrite (np_const (np (base x)) progs (lstep x t)); [reflexivity|]. rewrite E. rewrite E in R. constructor. exact R. }
+    apply pinv_step. exact IH.
 Qed.
